@@ -5,5 +5,5 @@ CONSTANTS Ops <- AllOps
  SampleMod = 16
  SampleSeed = @SEED@
  Model = "exact"
-INVARIANTS TypeOK RangesDecided TinyNeverBetter StaticRefusesWrites StaticOnlyAddsFailures ReturnDataBounds PaddedCopies ZeroLengthIsFree ContentsDefined ImplBoundsAgree
+INVARIANTS TypeOK RangesDecided TinyNeverBetter StaticRefusesWrites StaticOnlyAddsFailures ReturnDataBounds PaddedCopies ZeroLengthIsFree ContentsDefined ImplBoundsAgree TailDestsInvalid ShapeDoesNotDecide
 CHECK_DEADLOCK FALSE
